@@ -235,6 +235,25 @@ pub fn record(seed: u64, n: usize, bin: &str, scratch: &str, out: &str, rep: &mu
     use rand::{Rng, SeedableRng};
     std::fs::create_dir_all(scratch).ok();
     let mut f = std::io::BufWriter::new(std::fs::File::create(out).expect("create trace"));
+    for shift in 0..3usize {
+        // files of more than 64 KiB (three of them, shifted by 0 / 1 / 2 bytes so that every power-of-two offset falls inside a character in one of them), dense with two- and three-byte characters (so that any fixed-size
+        // read buffer splits one of them): judged by the file-vs-interactive comparison only
+        let mut big: Vec<String> = vec![format!("1 REM {}", "x".repeat(shift))];
+        for k in 1..=820u32 {
+            big.push(format!("{} PRINT \"{}{}\";{}", k * 10, "é".repeat(20 + (k % 7) as usize), "€日".repeat(6), k % 10));
+        }
+        let file = format!("{}/big.bas", scratch);
+        std::fs::write(&file, big.join("\n")).unwrap();
+        let fr = run_cli(bin, &[file], "", false, scratch);
+        let typed: String = big.iter().map(|l| format!("{}\n", l)).collect::<String>() + "RUN\n";
+        let tr = run_cli(bin, &[], &typed, true, scratch);
+        rep.count("big_files");
+        if fr.out != tr.out || fr.exit != tr.exit {
+            let at = fr.out.iter().zip(tr.out.iter()).position(|(a, b)| a != b).unwrap_or(fr.out.len().min(tr.out.len()));
+            rep.violation("C15", "file_mode_differs_from_interactive", json!({"what": "stdout", "big_file": true}),
+                json!({"program": "820 lines of PRINT with multi-byte text, 80 KiB", "shift": shift, "first_difference_at_output_byte": at, "file_exit": fr.exit, "interactive_exit": tr.exit}));
+        }
+    }
     for i in 0..n as u64 {
         let mut rng = StdRng::seed_from_u64(seed.wrapping_mul(1_000_003).wrapping_add(i));
         let lines = {
